@@ -170,7 +170,7 @@ func genValidIetfPatch(t *rapid.T, cur map[string]interface{}, st *propStats) (m
 		}
 		next, err := refPatch6902(work, op)
 		if err != nil {
-			st.Exclude("ietf op not applicable per RFC 6902 (only no-panic and atomicity are asserted there)")
+			st.Exclude("drawn ietf op not applicable per RFC 6902: redrawn (inapplicable operations are the subject of TestC10_Inapplicable / C12)")
 			continue
 		}
 		if _, ok := next.(map[string]interface{}); !ok {
@@ -378,6 +378,10 @@ func TestC10_Inapplicable(t *testing.T) {
 		why := ""
 		for try := 0; try < 12 && bad == nil; try++ {
 			op := genOp6902(t, work, true)
+			if try == 0 && rapid.IntRange(0, 5).Draw(t, "testMissingForNull") == 0 {
+				// a location that does not exist is not a location holding null
+				op = map[string]interface{}{"op": "test", "path": rapid.SampledFrom([]string{"/missing", "/arr/9", "/o/nothing", "/name/x/y"}).Draw(t, "missingPath"), "value": nil}
+			}
 			path, _ := op["path"].(string)
 			from, _ := op["from"].(string)
 			if touchesProtected(path) || (op["from"] != nil && touchesProtected(from)) {
